@@ -4,7 +4,6 @@ import (
 	"fmt"
 	"math/big"
 
-
 	"verifharness/gen"
 	"verifharness/mon"
 	"verifharness/ref"
@@ -49,12 +48,12 @@ func stripped(n ref.Num) (*big.Int, int) {
 }
 
 type powClass struct {
-	yInt     bool
-	yOdd     bool
-	yIntVal  *big.Int // |y| when integer and below 1e40
-	yHalf    bool     // |y| == 0.5
-	xPow10   bool
-	xPow10E  int
+	yInt    bool
+	yOdd    bool
+	yIntVal *big.Int // |y| when integer and below 1e40
+	yHalf   bool     // |y| == 0.5
+	xPow10  bool
+	xPow10E int
 }
 
 func classifyPow(xn, yn ref.Num) powClass {
